@@ -432,3 +432,54 @@ Definition mentioned_ev (ev : fev) : list N :=
 Definition mentioned (evs : list fev) : list N := flat_map mentioned_ev evs.
 Definition final_state (prm : fparams) (evs : list fev) : fstate := fst (frun prm f_init evs).
 Definition total_pages (st : fstate) : nat := fold_right (fun kv a => (snd kv + a)%nat) O (f_pages st).
+
+(* ------------------------------------------------------------------------------------------ *)
+(* E. the production value lookup (Node._peers_for_value_producer) and the size of a findValue  *)
+(*    reply (KademliaProtocol._send refuses datagrams above MSG_SIZE_LIMIT)                     *)
+(* ------------------------------------------------------------------------------------------ *)
+(* blob peers decoded from findValue replies carry only a TCP port; the UDP port to ping is guessed:
+   the same port, or for the <=0.48.0 default range 3333..3399 the matching 4444.. port *)
+Definition guess_udp (tcp : N) : N :=
+  if (3332 <? tcp) && (tcp <? 3400) then tcp - 3333 + 4444 else tcp.
+
+Inductive pact := ASkip | APut | APing (udp : N).
+
+(* what the producer does with one peer of a result: is_self = same address and tcp port as this node,
+   good = peer_is_good (Some true / Some false / None), udp = the peer's udp port when known *)
+Definition producer_action (is_self : bool) (good : option bool) (udp : option N) (tcp : N) : pact :=
+  if is_self then ASkip else
+  match good with
+  | Some true => APut
+  | Some false => ASkip
+  | None => APing (match udp with Some u => if u =? 0 then guess_udp tcp else u | None => guess_udp tcp end)
+  end.
+
+(* port layouts the guess supports: one port for both protocols (outside the legacy range), or a legacy
+   instance tcp 3333+i / udp 4444+i *)
+Definition port_layout_supported (udp tcp : N) : Prop :=
+  (udp = tcp /\ ~ (3333 <= tcp <= 3399)) \/ (3333 <= tcp <= 3399 /\ udp = tcp + 1111).
+
+Local Open Scope nat_scope.
+Definition MSG_SIZE_LIMIT : nat := 1400.
+
+Definition ndigits (n : N) : nat :=
+  if (n <? 10)%N then 1 else if (n <? 100)%N then 2 else if (n <? 1000)%N then 3 else if (n <? 10000)%N then 4
+  else if (n <? 100000)%N then 5 else if (n <? 1000000)%N then 6 else 7.   (* 7 = "10^6 or more": outside the model's range *)
+
+(* bencode sizes: i<digits>e, <len>:<bytes>, l..e, d..e *)
+Definition sz_int (n : N) : nat := 2 + ndigits n.
+Definition sz_bytes (len : nat) : nat := ndigits (N.of_nat len) + 1 + len.
+(* a contact triple [node id (48 bytes), dotted quad (text), udp port] *)
+Definition sz_triple (c : nat * N) : nat := 2 + sz_bytes 48 + sz_bytes (fst c) + sz_int (snd c).
+Definition sum_nat (l : list nat) : nat := fold_right Nat.add O l.
+
+(* the response datagram {0: 1, 1: rpc id, 2: node id, 3: result} of KademliaRPC.find_value:
+   contacts = Some [(length of the dotted quad, port)] on page 0, compacts = Some c when the page holds c peers *)
+Definition find_value_reply_size (contacts : option (list (nat * N))) (compacts : option nat) (pages : N) : nat :=
+  let result :=
+    2 + (sz_bytes 5 + sz_bytes 48)                                    (* token *)
+      + match contacts with Some cs => sz_bytes 8 + (2 + sum_nat (map sz_triple cs)) | None => O end
+      + (sz_bytes 15 + sz_int 1)                                      (* protocolVersion *)
+      + match compacts with Some c => sz_bytes 48 + (2 + c * sz_bytes 54) | None => O end
+      + (sz_bytes 1 + sz_int pages) in                                (* p *)
+  2 + (sz_int 0 + sz_int 1) + (sz_int 1 + sz_bytes 20) + (sz_int 2 + sz_bytes 48) + (sz_int 3 + result).
